@@ -19,7 +19,9 @@
 
    `by_id` selects how a parent link is removed: true = by identity
    (MerkleNode._remove_parent, the code as it is now); false = the previous
-   code, list.remove(self), which compares with == (structural equality). *)
+   code, list.remove(self), which compares with == (structural equality).
+   `old_truthy` selects how "no cached hash" is tested: false = `is None` (the
+   code as it is now); true = by truthiness (the previous code), see [store]. *)
 From Coq Require Import List NArith Bool Arith.
 From SWH.lib Require Import Bytes.
 Import ListNotations.
